@@ -24,7 +24,7 @@ ID = 'C03'
 LEVEL = 'model_checking'
 RULE = (
     'full product of beam-1 direction x |b1| x |b2| x base angle {0, pi/2, pi} x unit pair x perpendicular; '
-    'inside every case all 11 offsets {0, +-1e-12, +-1e-9, +-1e-6, +-1e-3, 0.7, -0.7} of the angle between the beams, each '
+    'inside every case all 11 offsets {0, +-1e-12, +-1e-9, +-1e-6, +-1e-3, 0.7, -0.7} (thorough: 23 offsets, 1e-15 and every decade 1e-12..1e-3 except 1e-11, and a 4th base angle pi/3, 26 directions) of the angle between the beams, each '
     'evaluated 0-d, with swapped arguments, under 27 rotations, 12 rescalings and 3 translations; a configuration is '
     'non-trivial when the two float beams are not exactly parallel (reference angle != 0); distinct = distinct '
     '(case, offset) pairs'
@@ -38,7 +38,9 @@ ASSUMPTIONS = [
 ]
 BOUND = {
     'quick': '6 directions x 3x3 norms {1e-6,1,1e6} x 3 base angles x 11 offsets, units (m,m) + one mixed pair per case',
-    'thorough': '18 directions x 3x3 norms x 3 base angles x 11 offsets x 16 unit pairs {mm,m,km,angstrom}^2 x 2 perpendiculars',
+    'thorough': '26 directions (18 + nearly-axis, nearly-diagonal, integer-valued) x 3x3 norms x 4 base angles {0, pi/2, pi, pi/3} x 23 offsets '
+                '{0, +-1e-15, +-1e-12, +-1e-10, +-1e-9, +-1e-8, +-1e-7, +-1e-6, +-1e-5, +-1e-4, +-1e-3, +-0.7} x 16 unit pairs '
+                '{mm,m,km,angstrom}^2 x 2 perpendiculars',
 }
 REQUIRED_CLASSES = [
     'angle_near_0', 'angle_near_pi_half', 'angle_near_pi', 'angle_generic', 'angle_exactly_0',
@@ -47,8 +49,14 @@ REQUIRED_CLASSES = [
 ]
 
 NORMS = (1.0, 1e-6, 1e6)
-BASES = (0.0, math.pi / 2, math.pi)
-OFFSETS = (0.0, 1e-12, -1e-12, 1e-9, -1e-9, 1e-6, -1e-6, 1e-3, -1e-3, 0.7, -0.7)
+BASES_QUICK = (0.0, math.pi / 2, math.pi)
+BASES = BASES_QUICK
+OFFSETS_QUICK = (0.0, 1e-12, -1e-12, 1e-9, -1e-9, 1e-6, -1e-6, 1e-3, -1e-3, 0.7, -0.7)
+OFFSETS = OFFSETS_QUICK
+# thorough tier: additionally below the resolution of a double (1e-15), at sqrt(eps) = 1e-8 where arccos is worst,
+# and the decades in between
+OFFSETS_DEEP = (*OFFSETS_QUICK, *(s * x for x in (1e-15, 1e-10, 1e-8, 1e-7, 1e-5, 1e-4) for s in (1, -1)))
+BASES_DEEP = (0.0, math.pi / 2, math.pi, math.pi / 3)
 UNITS = ('m', 'mm', 'km', 'angstrom')
 SCALES = (2.0, 2.0**20, 2.0**-20, 3.0, 0.1, 1e3)
 N_POW2 = 3
@@ -72,11 +80,11 @@ def cases(tier):
     for perp in (0, 1):
         for u1 in UNITS:
             for u2 in UNITS:
-                for di in range(len(gc.DIRECTIONS)):
+                for di in range(len(gc.DIRECTIONS_DEEP)):
                     for n1 in NORMS:
                         for n2 in NORMS:
-                            for base in range(3):
-                                out.append({'d': di, 'n1': n1, 'n2': n2, 'base': base, 'u1': u1, 'u2': u2, 'perp': perp})
+                            for base in range(len(BASES_DEEP)):
+                                out.append({'deep': True, 'd': di, 'n1': n1, 'n2': n2, 'base': base, 'u1': u1, 'u2': u2, 'perp': perp})
     return out
 
 
@@ -131,7 +139,10 @@ def run_case(case, rec):
 
 
 def _run(case, rec):
-    d = gc.DIRECTIONS[case['d']]
+    deep = bool(case.get('deep'))
+    OFFSETS = OFFSETS_DEEP if deep else OFFSETS_QUICK  # noqa: N806 - shadows the module constant on purpose
+    BASES = BASES_DEEP if deep else BASES_QUICK  # noqa: N806
+    d = (gc.DIRECTIONS_DEEP if deep else gc.DIRECTIONS)[case['d']]
     p = gc.perpendicular(d, case['perp'])
     n1, n2, u1, u2 = case['n1'], case['n2'], case['u1'], case['u2']
     dh = gc.unit_dir(d)
